@@ -17,6 +17,10 @@ impl<'a> Context<'a> {
         let mut merged_data: Option<Data> = None;
         let function_tid = param_id.get_tid();
         if let Some(callsites) = self.callee_to_callsites_map.get(function_tid) {
+            // Merging of values is not associative (it may widen), so iterate over the callsites
+            // in a fixed order instead of the iteration order of the hash set.
+            let mut callsites: Vec<&Tid> = callsites.iter().collect();
+            callsites.sort();
             for callsite in callsites {
                 let param_id_at_callsite =
                     AbstractIdentifier::new(callsite.clone(), param_id.get_location().clone());
